@@ -125,7 +125,12 @@ fn real_main(args: Vec<String>) -> i32 {
         "import-artifact" if args.len() >= 5 => {
             let Ok(bytes) = std::fs::read(&args[4]) else { return 2 };
             let r = new_run(&args[2], Tier::Quick);
-            let fail = fuzzsupport::fuzz_entry(&args[3], &bytes).err().unwrap_or_else(|| Fail::new("fuzz-not-reproduced", "the saved input passes the oracle outside libFuzzer"));
+            // `--hang`: a libFuzzer timeout artifact; do not execute it here
+            let fail = if args.iter().any(|a| a == "--hang") {
+                Fail::new("hang@libfuzzer-timeout", "libFuzzer reported no progress within its 20 s timeout on this input")
+            } else {
+                fuzzsupport::fuzz_entry(&args[3], &bytes).err().unwrap_or_else(|| Fail::new("fuzz-not-reproduced", "the saved input passes the oracle outside libFuzzer"))
+            };
             let known = r.known_key(&fail.sig).is_some();
             let path = write_replay(&r, &Violation { check: format!("fuzz_{}", args[3]), case: serde_json::to_value(&bytes).unwrap(), fail });
             println!("{}{path}", if known { "KNOWN " } else { "" });
@@ -264,6 +269,19 @@ fn replay(defs: &[PropDef], file: &str) -> i32 {
         eprintln!("HARNESS-ERROR: unknown property {prop}");
         return 2;
     };
+    if v["signature"].as_str().map_or(false, |s| s.starts_with("hang@")) {
+        // a saved hang: reproducing it means not coming back within the limit
+        let file = file.to_string();
+        let prop = prop.to_string();
+        std::thread::spawn(move || {
+            std::thread::sleep(std::time::Duration::from_secs(30));
+            println!("VIOLATION property={prop} replay={file}");
+            eprintln!("  the saved input still makes the decoder loop for more than 30 s");
+            std::process::exit(1);
+        });
+    } else {
+        watchdog(3600);
+    }
     let tier = if v["tier"].as_str() == Some("thorough") { Tier::Thorough } else { Tier::Quick };
     let mut r = new_run(prop, tier);
     if let Some(s) = v["seed"].as_u64() {
